@@ -48,6 +48,10 @@ class Ctx:
         """heap views as they were at the head of the current iteration of loop `ordn`"""
         return OldCtx(self._eng, self._st.ghost[f"head{ordn}"], self._env)
 
+    def at_entry(self, ordn):
+        """heap views as they were when loop `ordn` was entered (before its first iteration)"""
+        return OldCtx(self._eng, self._st.ghost[f"entry{ordn}"], self._env)
+
     def at_head(self, ordn, name):
         """value (z3 term) a local variable had at the head of the current iteration of loop `ordn`"""
         return self._st.ghost[f"headenv{ordn}"][name].t
@@ -246,6 +250,7 @@ ANNOTATIONS = {
     "set[int]": TSet(TInt),
     "list[int]": TList(TInt),
     "dict[int,int]": TDict(TInt, TInt),
+    "list[tuple[int,BooleanSpace]]": TList(TTuple(TInt, TSpace)),
     "int": TInt,
     "bool": TBool,
 }
